@@ -414,6 +414,44 @@ impl KindFn for Cell<'_> {
                     ),
                 }
             }
+            if !with_shx && self.n > 0 {
+                // without an index random access is refused today; whatever it does, the typed call must agree with the
+                // generic call on the same record: both refused, or typed == converted generic, or the (S, T) mismatch
+                for k in [self.n - 1, 0] {
+                    let generic = open()?.read_nth_shape(k);
+                    let typed = open()?.read_nth_shape_as::<S>(k);
+                    match (generic, typed) {
+                        (Some(Err(_)), Some(Err(_))) => {}
+                        (Some(Ok(g)), Some(Ok(v))) => ensure!(
+                            s_ty == self.actual && view_shape(&g) == v.view(),
+                            "typed-vs-generic",
+                            "no index: read_nth_shape_as::<{}>({}) and read_nth_shape({}) return different shapes",
+                            s_ty.name(),
+                            k,
+                            k
+                        ),
+                        (Some(Ok(g)), Some(Err(e))) => ensure!(
+                            s_ty != self.actual && mismatch_of(&e) == Some((s_ty, variant_ty(&g))),
+                            "typed-error",
+                            "no index: read_nth_shape({}) yields a {:?}, read_nth_shape_as::<{}>({}) fails with {:?}",
+                            k,
+                            variant_ty(&g),
+                            s_ty.name(),
+                            k,
+                            e
+                        ),
+                        (g, t) => fail!(
+                            "typed-generic-disagree",
+                            "no index: read_nth_shape({}) is {}, read_nth_shape_as::<{}>({}) is {}",
+                            k,
+                            match &g { None => "None".to_string(), Some(Ok(x)) => format!("a {:?}", variant_ty(x)), Some(Err(e)) => format!("{:?}", e) },
+                            s_ty.name(),
+                            k,
+                            match &t { None => "None".to_string(), Some(Ok(_)) => "a value".to_string(), Some(Err(e)) => format!("{:?}", e) }
+                        ),
+                    }
+                }
+            }
             if with_shx && self.n > 0 {
                 // random access, repeated on ONE reader: a typed access (matching or not) is followed by the same typed
                 // access again, by the generic access, and by the typed access once more — a failed typed read must not
